@@ -799,6 +799,12 @@ class NPProxy:
     def stack(self, tup, *a, **k):
         return _wrap(_np.stack([_objify(x) if is_sym(x) else x for x in tup], *a, **k))
 
+    def insert(self, arr, obj, values, axis=None):
+        if Session.active and (is_sym(values) or is_sym(arr)):
+            return _wrap(_np.insert(_np.asarray(arr, dtype=object), obj,
+                                    _np.asarray(values, dtype=object), axis=axis))
+        return _np.insert(arr, obj, values, axis=axis)
+
     def tile(self, a, reps):
         return _wrap(_np.tile(a, reps))
 
